@@ -13,6 +13,8 @@ TIERS = {
     'thorough': {'workers': 16, 'cases': 25000, 'timeout': 3000, 'exhaustive': True},
 }
 SHAPES = ['fn', 'init', 'new', 'method']
+# further workloads for the property's online monitor (vf/online.py): the repository's tests and other checks' generated cases
+ONLINE = {'which': ['inject'], 'foreign': ['C04', 'C05', 'C07', 'C10', 'C12', 'C13', 'C17', 'C20'], 'n': {'quick': 40, 'thorough': 600}}
 REQUIRED_BUCKETS = (['shape:' + s for s in SHAPES] + ['api:configurable', 'api:register', 'api:external'] +
                     ['depth:%d' % d for d in range(5)] +
                     ['call:positional-override', 'call:keyword-override', 'call:omitted-bound', 'call:omitted-default',
